@@ -249,10 +249,12 @@ class MultiLevelTransform(CompositeTransform):
             if not transforms:
                 identity = torch.eye(self.ndim, self.ndim + 1, device=self.device)
                 return identity.unsqueeze(0)
+            # Sum of displacements u_i(x) = (A_i - I) x + t_i, i.e., y = x + sum_i u_i(x)
             transform = transforms[0]
             mat = as_homogeneous_matrix(transform.tensor())
+            identity = torch.eye(self.ndim, self.ndim + 1, dtype=mat.dtype, device=mat.device)
             for transform in transforms[1:]:
-                mat += as_homogeneous_matrix(transform.tensor())
+                mat = mat + (as_homogeneous_matrix(transform.tensor()) - identity)
             return mat
         return self.disp()
 
